@@ -306,3 +306,226 @@ pub fn record_c02(out: &str, seed: u64, n: usize) {
     w.finish();
     println!("{}", json!({"events": events, "nontrivial": nontrivial, "samples": samples, "counters": {"skipped": skipped}}));
 }
+
+// ---------------------------------------------------------------------------------------------
+// generic engine-level case ("net"): a rule list + tag set against the request universe
+
+use adblock::lists::ParseOptions;
+use adblock::resources::{MimeType, PermissionMask, Resource, ResourceType};
+use adblock::Engine;
+use base64::{engine::Engine as _, prelude::BASE64_STANDARD};
+
+pub struct UReq {
+    pub url: String,
+    pub alias: String,
+    pub src: String,
+}
+
+#[derive(Default)]
+pub struct NetCtx {
+    pub reqs: Vec<UReq>,
+    pub resources: Vec<Resource>,
+}
+
+pub fn mk_resource(name: &str, aliases: Vec<String>, kind: &str, perm: u8, deps: Vec<String>, content: &str) -> Resource {
+    let k = match kind {
+        "template" => ResourceType::Template,
+        other => ResourceType::Mime(MimeType::from(other)),
+    };
+    Resource {
+        name: name.to_string(),
+        aliases,
+        kind: k,
+        content: BASE64_STANDARD.encode(content),
+        dependencies: deps,
+        permission: PermissionMask::from_bits(perm),
+    }
+}
+
+impl NetCtx {
+    pub fn set_universe(&mut self, c: &Value) {
+        self.reqs = c["reqs"]
+            .as_array()
+            .unwrap()
+            .iter()
+            .map(|r| UReq {
+                url: r["url"].as_str().unwrap().to_string(),
+                alias: r["alias"].as_str().unwrap().to_string(),
+                src: r["src"].as_str().unwrap().to_string(),
+            })
+            .collect();
+        self.resources = c["res"]
+            .as_array()
+            .map(|a| {
+                a.iter()
+                    .map(|r| {
+                        let name = r["name"].as_str().unwrap();
+                        mk_resource(name, strs(&r["aliases"]), r["kind"].as_str().unwrap(),
+                                    r["perm"].as_u64().unwrap_or(0) as u8, vec![], name)
+                    })
+                    .collect()
+            })
+            .unwrap_or_default();
+    }
+}
+
+/// data:<mime>;base64,<b64(name)>  ->  name
+pub fn redirect_name(r: &Option<String>) -> String {
+    match r {
+        None => String::new(),
+        Some(s) => match s.find(";base64,") {
+            Some(i) => BASE64_STANDARD
+                .decode(&s[i + 8..])
+                .ok()
+                .and_then(|b| String::from_utf8(b).ok())
+                .unwrap_or_else(|| format!("?{}", s)),
+            None => format!("?{}", s),
+        },
+    }
+}
+
+pub fn verdict_json(r: &adblock::blocker::BlockerResult) -> Value {
+    json!({
+        "matched": r.matched,
+        "important": r.important,
+        "exception": r.exception.is_some(),
+        "redirect": redirect_name(&r.redirect),
+        "rewritten": r.rewritten_url.clone().unwrap_or_default(),
+    })
+}
+
+pub fn csp_json(c: &Option<String>) -> Value {
+    match c {
+        None => json!([]),
+        Some(s) => {
+            let mut v: Vec<&str> = s.split(',').collect();
+            v.sort();
+            v.dedup();
+            json!(v)
+        }
+    }
+}
+
+fn sorted_set(v: &Value) -> Value {
+    let mut a: Vec<String> = strs(v);
+    a.sort();
+    a.dedup();
+    json!(a)
+}
+
+pub fn build_engine(rules: &[String], tags: &[String], resources: &[Resource], opt: bool) -> Engine {
+    let mut e = Engine::from_rules_parametrised(rules, ParseOptions::default(), true, opt);
+    let t: Vec<&str> = tags.iter().map(|s| s.as_str()).collect();
+    e.use_tags(&t);
+    e.use_resources(resources.to_vec());
+    e
+}
+
+pub fn replay_net(ctx: &NetCtx, c: &Value, rep: &mut Report) {
+    let rules = strs(&c["rules"]);
+    let tags = strs(&c["tags"]);
+    let v_allowed = c["v"].as_array().unwrap();
+    let csp_allowed = c["csp"].as_array().unwrap();
+    let hits_allowed = c.get("hits").and_then(|h| h.as_array());
+    // attribution data: requests (1-based index q) where a named deviation of the model applies
+    let mut dev: std::collections::HashMap<usize, &Value> = Default::default();
+    if let Some(a) = c.get("dev").and_then(|d| d.as_array()) {
+        for d in a {
+            dev.insert(d["q"].as_u64().unwrap() as usize - 1, d);
+        }
+    }
+    let mut hdev: std::collections::HashMap<(usize, usize), &Value> = Default::default();
+    if let Some(a) = c.get("hdev").and_then(|d| d.as_array()) {
+        for d in a {
+            hdev.insert((d["q"].as_u64().unwrap() as usize - 1, d["i"].as_u64().unwrap() as usize - 1), d);
+        }
+    }
+    let mut nontrivial = false;
+    for opt in [false, true] {
+        let eng = match guarded(|| build_engine(&rules, &tags, &ctx.resources, opt)) {
+            Ok(e) => e,
+            Err(p) => {
+                rep.mismatch(json!({"rules": rules, "tags": tags, "opt": opt, "observed": "panic", "panic": p, "devs": []}));
+                continue;
+            }
+        };
+        for (qi, q) in ctx.reqs.iter().enumerate() {
+            let req = match Request::new(&q.url, &q.src, &q.alias) {
+                Ok(r) => r,
+                Err(_) => {
+                    rep.skipped += 1;
+                    continue;
+                }
+            };
+            rep.evaluations += 1;
+            let obs = match guarded(|| (eng.check_network_request(&req), eng.get_csp_directives(&req))) {
+                Ok((r, csp)) => (verdict_json(&r), csp_json(&csp)),
+                Err(p) => (json!({"panic": p}), json!("panic")),
+            };
+            if obs.0["matched"] == json!(true) || obs.0["exception"] == json!(true) || obs.0["redirect"] != json!("")
+                || obs.0["rewritten"] != json!("") || obs.1 != json!([]) {
+                nontrivial = true;
+            }
+            if !allowed_has(&v_allowed[qi], &obs.0) {
+                let (devs, model) = match dev.get(&qi) {
+                    // the model may itself be a set (ties); "model" = observed iff the model allows it
+                    Some(d) => (d["names"].clone(), if allowed_has(&d["mv"], &obs.0) { obs.0.clone() } else { d["mv"].clone() }),
+                    None => (json!([]), Value::Null),
+                };
+                rep.mismatch(json!({"what": "verdict", "rules": rules, "tags": tags, "opt": opt,
+                    "req": {"url": q.url, "src": q.src, "type": q.alias},
+                    "observed": obs.0, "allowed": v_allowed[qi], "devs": devs, "model": model}));
+            }
+            let csp_ok = csp_allowed[qi].as_array().unwrap().iter().any(|a| sorted_set(a) == obs.1);
+            if !csp_ok {
+                let (devs, model) = match dev.get(&qi) {
+                    Some(d) => (d["names"].clone(),
+                        if d["mcsp"].as_array().unwrap().iter().any(|a| sorted_set(a) == obs.1) { obs.1.clone() } else { d["mcsp"].clone() }),
+                    None => (json!([]), Value::Null),
+                };
+                rep.mismatch(json!({"what": "csp", "rules": rules, "tags": tags, "opt": opt,
+                    "req": {"url": q.url, "src": q.src, "type": q.alias},
+                    "observed": obs.1, "allowed": csp_allowed[qi], "devs": devs, "model": model}));
+            }
+        }
+    }
+    // matcher level (public NetworkMatchable::matches), when the export carries per-rule hits
+    if let Some(hits) = hits_allowed {
+        let parsed: Vec<Option<NetworkFilter>> = rules
+            .iter()
+            .map(|r| NetworkFilter::parse(r, true, Default::default()).ok())
+            .collect();
+        for (qi, q) in ctx.reqs.iter().enumerate() {
+            let req = match Request::new(&q.url, &q.src, &q.alias) {
+                Ok(r) => r,
+                Err(_) => continue,
+            };
+            for (ri, f) in parsed.iter().enumerate() {
+                if let Some(f) = f {
+                    rep.evaluations += 1;
+                    let obs = match guarded(|| f.matches(&req, &mut RegexManager::default())) {
+                        Ok(b) => json!(b),
+                        Err(_) => json!("panic"),
+                    };
+                    if !allowed_has(&hits[qi][ri], &obs) {
+                        let (devs, model) = match hdev.get(&(qi, ri)) {
+                            Some(d) => (d["names"].clone(), d["m"].clone()),
+                            None => (json!([]), Value::Null),
+                        };
+                        rep.mismatch(json!({"what": "matcher", "rule": rules[ri],
+                            "req": {"url": q.url, "src": q.src, "type": q.alias},
+                            "observed": obs, "allowed": hits[qi][ri], "devs": devs, "model": model}));
+                    }
+                } else {
+                    rep.count("rule_rejected_by_parser");
+                }
+            }
+        }
+    }
+    if nontrivial {
+        rep.nontrivial += 1;
+        if rep.samples.len() < 3 && rules.len() > 0 {
+            rep.sample(json!({"rules": rules, "tags": tags, "first_request": {"url": ctx.reqs[0].url, "allowed": v_allowed[0]}}));
+        }
+    }
+}
